@@ -329,3 +329,72 @@ def coq_bool(b):
 
 def coq_z(n):
     return f"({int(n)})%Z"
+
+
+class Worker:
+    """A child process that evaluates `module.func(arg)` for JSON-able args.
+    A mutated emg3d can corrupt memory / abort inside numba kernels; running the
+    implementation in a child keeps the check alive and turns the abort into a
+    reportable outcome: call() returns ('ok', result), ('crash', text) or
+    ('timeout', text)."""
+
+    BOOT = ("import sys, json, importlib\n"
+            "sys.path.insert(0, {py!r}); sys.path.insert(0, {repo!r})\n"
+            "m = importlib.import_module({mod!r}); f = getattr(m, {fn!r})\n"
+            "out = sys.stdout; sys.stdout = sys.stderr\n"
+            "for line in sys.stdin:\n"
+            "    try:\n"
+            "        r = ('ok', f(json.loads(line)))\n"
+            "    except Exception as e:\n"
+            "        r = ('exc', repr(e)[:500])\n"
+            "    out.write(json.dumps(r, default=str) + '\\n'); out.flush()\n")
+
+    def __init__(self, module, func):
+        self.module, self.func = module, func
+        self.p = None
+
+    def _start(self):
+        import tempfile
+        code = self.BOOT.format(py=os.path.join(VERIF, 'py'), repo=REPO, mod=self.module, fn=self.func)
+        self.err = tempfile.TemporaryFile(mode='w+')
+        self.p = subprocess.Popen([sys.executable, '-u', '-c', code], stdin=subprocess.PIPE,
+                                  stdout=subprocess.PIPE, stderr=self.err, text=True, bufsize=1)
+
+    def call(self, arg, timeout=600):
+        import select
+        if self.p is None or self.p.poll() is not None:
+            self._start()
+        try:
+            self.p.stdin.write(json.dumps(arg) + '\n')
+            self.p.stdin.flush()
+        except (BrokenPipeError, OSError):
+            return self._dead('crash')
+        r, _, _ = select.select([self.p.stdout], [], [], timeout)
+        if not r:
+            self.p.kill()
+            return self._dead('timeout')
+        line = self.p.stdout.readline()
+        if not line:
+            return self._dead('crash')
+        kind, val = json.loads(line)
+        return kind, val
+
+    def _dead(self, kind):
+        try:
+            self.p.wait(timeout=10)
+        except Exception:
+            pass
+        rc = self.p.poll()
+        self.err.seek(0)
+        tail = self.err.read()[-600:]
+        self.p = None
+        return kind, f"child exit status {rc}; stderr: {tail}"
+
+    def close(self):
+        if self.p is not None and self.p.poll() is None:
+            try:
+                self.p.stdin.close()
+                self.p.wait(timeout=10)
+            except Exception:
+                self.p.kill()
+        self.p = None
